@@ -14,6 +14,11 @@ typedef unsigned long size_t;
 int errno_;
 #define errno errno_
 extern "C" size_t stub_find(const char *d, size_t n, char c) { for (size_t i = 0; i < SCAP; i++) if (i < n && d[i] == c) return i; return (size_t)-1; }
+extern "C" size_t stub_find_set(const char *d, size_t n, const char *set)
+{
+  for (size_t i = 0; i < SCAP; i++) if (i < n) for (unsigned k = 0; k < 4; k++) { if (set[k] == 0) break; if (d[i] == set[k]) return i; }
+  return (size_t)-1;
+}
 namespace std {
 struct string {
   mutable char d[SCAP + 1]; size_t n;
@@ -23,6 +28,8 @@ struct string {
   size_t size() const { return n; }
   char operator[](size_t i) const { __CPROVER_assert(i <= n, "string index in bounds"); return d[i <= SCAP ? i : 0]; }
   size_t find_first_of(char c) const { return stub_find(d, n, c); }
+  size_t find(char c) const { return stub_find(d, n, c); }
+  size_t find_first_of(const char *set) const { return stub_find_set(d, n, set); }      /* first position holding any character of the set */
 };
 }
 static int digit_of(char c) { if (c >= '0' && c <= '9') return c - '0'; if (c >= 'a' && c <= 'z') return c - 'a' + 10; if (c >= 'A' && c <= 'Z') return c - 'A' + 10; return 99; }
@@ -35,8 +42,8 @@ extern "C" long stub_strtol(const char *s, char **end, int base)
   __CPROVER_assert(base >= 2 && base <= 36, "strtol: base is 0 or in 2..36");
   long v = 0; unsigned start = i;
   for (unsigned k = 0; k < SCAP + 1; k++) if (i < SCAP + 1 && digit_of(s[i]) < base) { v = v * base + digit_of(s[i]); i++; }      /* <= SCAP digits: no overflow, errno untouched */
-  if (i == start) { *end = (char *)s; return 0; }
-  *end = (char *)(s + i);
+  if (i == start) { if (end) *end = (char *)s; return 0; }      /* endptr may be null (ISO C) */
+  if (end) *end = (char *)(s + i);
   return neg ? -v : v;
 }
 namespace std { inline long strtol(const char *s, char **end, int base) { return stub_strtol(s, end, base); } }
